@@ -272,3 +272,82 @@ func allLaunches(parent, g *ssa.Function) []ssa.Instruction {
 	})
 	return out
 }
+
+// C12.group-lists-read-only (added after seed C12-9): Group.InactiveMemberIndexes
+// and DisqualifiedMemberIndexes hand out the group's own slices. Anyone who
+// appends to, sorts or stores into such a result rewrites the exclusion lists
+// that shouldAcceptMessage consults — an excluded member could become
+// operating again.
+func init() {
+	extend("C12", func(r *Run) {
+		r.Rule("C12.group-lists-read-only", "callers never write into the slices returned by the group's exclusion-list getters", 5)
+		getters := `^pkg/protocol/group\.Group\.(InactiveMemberIndexes|DisqualifiedMemberIndexes)$`
+		n := 0
+		for _, fn := range r.W.AllFuncs {
+			for _, c := range Sites(fn, getters, false) {
+				cv := callValue(c)
+				if cv == nil {
+					continue
+				}
+				n++
+				var bad []string
+				seen := map[ssa.Value]bool{}
+				var walk func(v ssa.Value, d int)
+				walk = func(v ssa.Value, d int) {
+					if d == 0 || seen[v] || v.Referrers() == nil {
+						return
+					}
+					seen[v] = true
+					for _, ref := range *v.Referrers() {
+						switch x := ref.(type) {
+						case *ssa.Slice:
+							walk(x, d-1)
+						case *ssa.ChangeType:
+							walk(x, d-1)
+						case *ssa.Phi:
+							walk(x, d-1)
+						case *ssa.IndexAddr:
+							for _, r2 := range *x.Referrers() {
+								if st, isSt := r2.(*ssa.Store); isSt && st.Addr == ssa.Value(x) {
+									bad = append(bad, "element store")
+								}
+							}
+						case *ssa.Call:
+							if b, isB := x.Call.Value.(*ssa.Builtin); isB {
+								if b.Name() == "append" && x.Call.Args[0] == v {
+									bad = append(bad, "append onto it")
+								}
+								if b.Name() == "copy" && x.Call.Args[0] == v {
+									bad = append(bad, "copy into it")
+								}
+								continue
+							}
+							cn := CalleeName(x)
+							if strings.HasPrefix(cn, "sort.") || strings.Contains(cn, "slices.Sort") || strings.Contains(cn, "slices.Reverse") {
+								bad = append(bad, cn)
+							}
+							// follow the list into repository functions and local closures it is handed to
+							callee := staticCallee(x)
+							if callee == nil {
+								callee = closureOf(x.Call.Value)
+							}
+							if callee != nil && callee.Blocks != nil {
+								off := len(callee.Params) - len(x.Call.Args)
+								for i, a := range x.Call.Args {
+									if a == v && i+off >= 0 && i+off < len(callee.Params) {
+										walk(callee.Params[i+off], d-1)
+									}
+								}
+							}
+						}
+					}
+				}
+				walk(cv, 5)
+				r.Cond(len(bad) == 0, "C12.group-lists-read-only", FnName(fn)+"#"+shortCallee(c), c.Pos(), "the returned list is only read; found: "+strings.Join(bad, ", "))
+			}
+		}
+		if n == 0 {
+			r.Undecided("C12.group-lists-read-only", "pkg/protocol/group", "no caller of the getters found")
+		}
+	})
+}
